@@ -237,30 +237,52 @@ def dump_model(m):
             'nodes': nodes, 'symbols': [{'tag': s.tag, 'ident': s.ident} for s in m.symbols]}
 
 
+def exc_class(e):
+    """exception class name; a TypeError raised inside the library's own $eq_type (argument pattern without a
+    value -> Component.get_type(None)) is named apart: it is a known behaviour of the unchanged library."""
+    import traceback
+    if isinstance(e, RecursionError):
+        return 'RecursionError'
+    if isinstance(e, TypeError):
+        for fr, _ in traceback.walk_tb(e.__traceback__):
+            if fr.f_code.co_name == '<lambda>' and fr.f_code.co_filename.endswith('light_versec/checker.py'):
+                return 'TypeError@eq_type-unbound-argument'
+    return type(e).__name__
+
+
 def run_match(ck, name):
-    """-> ('ok', [{rule, ctx}]) or (exception class name, [])   (synthetic '#_<node>' results dropped)."""
+    """-> ('ok', [{rule, ctx}]) or (exception class name, [])   (synthetic '#_<node>' results dropped).
+    All results are collected first (as `list(checker.match(n))` in an application) and looked at afterwards:
+    every yielded pair must stay valid after the generator moved on."""
     try:
+        raw = list(ck.match(real_name(name)))
         out = []
-        for rules, cx in ck.match(real_name(name)):
+        for item in raw:
+            if type(item) is not tuple or len(item) != 2 or not isinstance(item[1], dict):
+                return 'BadResult:%s' % type(item).__name__, []
+            rules, cx = item
             c = sorted([k, comp_str(v)] for k, v in cx.items())
             for rn in rules:
                 if _RE_SYNTH.match(rn):
                     continue
                 out.append({'rule': norm_rule(rn), 'ctx': c})
         return 'ok', out
-    except RecursionError:
-        return 'RecursionError', []
     except Exception as e:  # noqa
-        return type(e).__name__, []
+        return exc_class(e), []
+
+
+def _answer(res):
+    """Checker.check is documented to return bool: anything else is reported, not coerced."""
+    if type(res) is not bool:
+        return 'NotBool:%s' % type(res).__name__, bool(res)
+    return 'ok', res
 
 
 def run_check(ck, pkt, key):
     try:
-        return 'ok', bool(ck.check(real_name(pkt), real_name(key)))
-    except RecursionError:
-        return 'RecursionError', False
+        return _answer(ck.check(real_name(pkt), real_name(key)))
     except Exception as e:  # noqa
-        return type(e).__name__, False
+        return exc_class(e), False
 
 
 def run_check_reused(ck, bufp, bufk, pkt, key):
@@ -269,11 +291,9 @@ def run_check_reused(ck, bufp, bufk, pkt, key):
     bufp[:] = real_name(pkt)
     bufk[:] = real_name(key)
     try:
-        return 'ok', bool(ck.check(bufp, bufk))
-    except RecursionError:
-        return 'RecursionError', False
+        return _answer(ck.check(bufp, bufk))
     except Exception as e:  # noqa
-        return type(e).__name__, False
+        return exc_class(e), False
 
 
 def reload(ck):
@@ -292,7 +312,7 @@ class Gen:
     permutation, constrained patterns occur in the expanded name of the constraining rule (temporaries:
     in its own text), option/argument patterns are named patterns occurring in some rule name."""
 
-    def __init__(self, rng, max_rules=6, max_len=4, signing=0.5, p_forward=0.15, p_redef=0.18, p_twin=0.5, force_twin=0.0, carried=0.0):
+    def __init__(self, rng, max_rules=6, max_len=4, signing=0.5, p_forward=0.15, p_redef=0.18, p_twin=0.5, force_twin=0.0, carried=0.0, dual=0.0):
         self.rng = rng
         self.max_rules = max_rules
         self.max_len = max_len
@@ -302,6 +322,7 @@ class Gen:
         self.p_twin = p_twin
         self.force_twin = force_twin
         self.carried = carried
+        self.dual = dual
 
     def schema(self):
         rng = self.rng
@@ -311,6 +332,7 @@ class Gen:
         n = rng.randint(2, self.max_rules)
         ids, rank, rules = [], {}, []
         self.minlen = {}          # id -> minimal expanded length over its definitions
+        self.uses = {}            # id -> rule ids inlined by its definitions (transitively, itself included)
         self.pats = {}            # id -> named patterns possibly in its expansion
         for i in range(n):
             x = rng.random()
@@ -381,6 +403,28 @@ class Gen:
                             cs.append(json.loads(json.dumps(c)))
                     else:
                         k['cons'].append([c])
+            if rng.random() < self.dual:
+                # a second definition of a signed rule D with the SAME signers and complementary shape (literals of D
+                # become named patterns - preferably ones its signer uses - and its patterns become literals): one
+                # packet name then satisfies both definitions with different bindings, and which keys may sign
+                # depends on the definition
+                cands = [r for r in rules if r['sign'] and r['id'][1] != '_' and 2 <= len(r['name']) <= 3
+                         and all(i['k'] in 'vp' for i in r['name']) and any(i['k'] == 'v' for i in r['name'])
+                         and any(i['k'] == 'p' for i in r['name'])]
+                if cands:
+                    d = rng.choice(cands)
+                    kp = sorted(set().union(*[self.pats.get(k, set()) for k in d['sign']]) - {i.get('p') for i in d['name']})
+                    pool = kp or [q for q in NAMED if q not in {i.get('p') for i in d['name']}]
+                    name = []
+                    for it in d['name']:
+                        if it['k'] == 'v':
+                            q = rng.choice(pool)
+                            name.append(P(q))
+                        else:
+                            name.append(V(rng.choice(self.lits)))
+                    t = rule(d['id'], name, sign=list(d['sign']))
+                    rules.insert(rules.index(d) + rng.choice([0, 1]), t)
+                    self.pats[d['id']] = self.pats.get(d['id'], set()) | {i['p'] for i in name if i['k'] == 'p'}
             if rng.random() < self.force_twin:
                 # make sure there is a twin definition whose signer the earlier definitions do not have
                 short = lambda q: self.minlen.get(q, 9) <= 3
@@ -406,13 +450,19 @@ class Gen:
         budget = rng.choice([1, 2, 2, 3, 3, self.max_len])
         name, used = [], 0
         own_named = set()
+        refd = set()
         while used < budget and len(name) < 4:
             x = rng.random()
             refs_fit = [q for q in refs if self.minlen[q] <= budget - used]
             if refs_fit and x < 0.30:
                 q = rng.choice(refs_fit)
-                name.append(R(q)); used += self.minlen[q]; own_named |= self.pats[q]
-                if rng.random() < 0.35 and self.minlen[q] <= budget - used:    # the same rule once more
+                name.append(R(q)); used += self.minlen[q]; own_named |= self.pats[q]; refd.add(q)
+                # "diamond": another rule that inlines a rule q inlines too (the same text reached through two ids)
+                dia = [q2 for q2 in refs if q2 != q and self.uses[q2] & self.uses[q] and self.minlen[q2] <= budget - used]
+                if dia and rng.random() < 0.5:
+                    q2 = rng.choice(dia)
+                    name.append(R(q2)); used += self.minlen[q2]; own_named |= self.pats[q2]; refd.add(q2)
+                elif rng.random() < 0.35 and self.minlen[q] <= budget - used:    # the same rule once more
                     if rng.random() < 0.5 and used < budget - self.minlen[q]:
                         name.append(V(rng.choice(self.lits))); used += 1
                     name.append(R(q)); used += self.minlen[q]
@@ -431,6 +481,7 @@ class Gen:
         r = rule(rid, name)
         self.minlen[rid] = min(self.minlen.get(rid, 99), used)
         self.pats[rid] = self.pats.get(rid, set()) | own_named
+        self.uses[rid] = self.uses.get(rid, {rid}) | set().union(*[self.uses[q] for q in refd]) if refd else self.uses.get(rid, {rid})
         r['_named'] = sorted(own_named)
         return r
 
@@ -461,7 +512,11 @@ class Gen:
         if f == '$in':
             return F(f, *[self._value(occurring) for _ in range(rng.choice([1, 2, 3]))])
         if f == '$eq_type':
-            return F(f, V(rng.choice(['v=1', 'x'])))       # literal arguments only (see c11.py notes)
+            # 0, 1 or 2+ arguments; mostly literals, sometimes patterns (a pattern without a value makes the
+            # library's own $eq_type raise TypeError: known, see exc_class)
+            n = rng.choice([0, 1, 1, 1, 2, 3])
+            return F(f, *[(self._pat(occurring) if occurring and rng.random() < 0.3 else V(rng.choice(self.lits + ['v=1'])))
+                          for _ in range(n)])
         return F(f)
 
     def _constraints(self, r, occurring):
@@ -498,9 +553,7 @@ def alphabet(rules, rng, size=5):
     fresh = ['w', 'v=9'] if any(c.startswith('v=') for c in lits) or 'isv' in json.dumps(rules) else ['w', 'q']
     if 'u' not in lits:
         fresh = ['u'] + fresh
-    if len(lits) >= size:
-        return lits[:size]            # generator keeps literal pools small; never truncates in practice
-    return (lits + fresh)[:max(size, len(lits))][:size]
+    return lits + fresh[:max(1, size - len(lits))]      # never drops a literal; at least one fresh component
 
 
 # ------------------------------------------------------------------ TLC judge
